@@ -12,10 +12,12 @@ CONSTANTS
   Ends = {"close", "forget"}
   Writers = TRUE
   MaxOps = 2
+  Rereads = FALSE
   Parking = TRUE
   ResetOnOpen = TRUE
   ResetOnStart = TRUE
   RegisterOnReach = FALSE
+  RegisterBeforeWrite = FALSE
   EndChecksOnError = FALSE
   LogCalls = FALSE
 INVARIANT TypeOK
